@@ -532,6 +532,8 @@ U_TARGETS = {
     "find_arg_optimal[max]": ("pydcop.dcop.relations:find_arg_optimal", lambda: spec_find_arg_optimal("max"), ["C06", "C01"]),
     "find_optimal[min,own-cost]": ("pydcop.dcop.relations:find_optimal", lambda: spec_find_optimal("min", True), ["C06"]),
     "find_optimal[max,own-cost]": ("pydcop.dcop.relations:find_optimal", lambda: spec_find_optimal("max", True), ["C06"]),
+    "find_optimal[min,no-own-cost]": ("pydcop.dcop.relations:find_optimal", lambda: spec_find_optimal("min", False), ["C06"]),
+    "find_optimal[max,no-own-cost]": ("pydcop.dcop.relations:find_optimal", lambda: spec_find_optimal("max", False), ["C06"]),
     "get_value_candidates[None]": ("pydcop.algorithms.syncbb:get_value_candidates", lambda: spec_value_candidates(True), ["C02"]),
     "get_value_candidates[value]": ("pydcop.algorithms.syncbb:get_value_candidates", lambda: spec_value_candidates(False), ["C02"]),
     "solution_cost[complete]": ("pydcop.dcop.dcop:solution_cost", lambda: spec_solution_cost(True), ["C13"]),
